@@ -144,6 +144,10 @@ FAMILY = {
     "filt_select_args": "{{ items|select('gt', 1)|list }}|{{ items|reject('divisibleby', 2)|list }}|{{ words|select('in', ['a', 'B'])|list }}|{{ items|reject|list }}",
     "filt_selectattr_args": "{{ mixed|selectattr('p')|map(attribute='v')|list }}|{{ mixed|selectattr('p', 'equalto', 'x')|map(attribute='v')|list }}|{{ mixed|rejectattr('p', 'none')|map(attribute='v')|list }}|{{ mixed|rejectattr('p')|map(attribute='v')|list }}",
     "filt_list_args": "{{ words|list }}|{{ 'abc'|list }}|{{ pairs|list }}",
+    # integer attributes (index 0 is falsy), subscripts that yield awaitables, lazily awaited items
+    "filt_int_attribute": "{{ pairs|sum(attribute=0) }}|{{ pairs|sum(0) }}|{{ pairs|map(attribute=0)|list }}|{{ pairs|map(attribute=1)|list }}|{{ pairs|join(',', attribute=0) }}|{{ pairs|unique(attribute=0)|list }}|{{ pairs|selectattr(0)|list }}|{{ pairs|rejectattr(0, 'odd')|list }}|{% for k, g in pairs|groupby(0) %}{{ k }}{{ g|length }}{% endfor %}",
+    "loop_subscript": "{% for x in items %}{{ loop['index'] }}{{ loop['length'] }}{{ loop['last'] }}{{ loop['revindex'] }}{{ loop['revindex0'] }}{{ loop['nextitem'] }}{{ loop['first'] }};{% endfor %}",
+    "subscript_awaitable": "{{ lazy['k'] }}|{{ lazy.k }}|{{ lazy['k'] + 1 }}|{{ o()['k'] }}|{{ d()['k'] }}|{% if lazy['z'] %}T{% else %}F{% endif %}",
     "filt_chain": "{{ items|map('string')|select('string')|map('upper')|join('-') }}|{{ items|select('odd')|sum }}|{{ items|map('abs')|first }}",
     "filt_in_for": "{% for x in items|select('odd') %}{{ x }}{{ loop.last }}{% endfor %}|{% for x in items|map('string') %}{{ x }}{% endfor %}",
     "filt_sync_only": "{{ plain|sort|list }}|{{ plain|reverse|list }}|{{ plain|batch(2)|list }}|{{ plain|length }}|{{ plain|min }}|{{ plain|max }}|{{ plain|last }}|{{ plain|random is number }}",
@@ -187,6 +191,20 @@ class Obj:
 
     def __repr__(self):
         return "Obj(%r)" % self.v
+
+
+class Lazy:
+    """mapping whose items are produced by (possibly coroutine) functions: in async mode a subscript yields an
+    awaitable that the template engine has to await; every access builds a fresh one"""
+
+    def __init__(self, fk, fz):
+        self._f = {"k": fk, "z": fz}
+
+    def __getitem__(self, key):
+        return self._f[key]()
+
+    def __repr__(self):
+        return "Lazy()"
 
 
 class Part:
@@ -242,6 +260,7 @@ def make_data(acalls, aiters):
         "items": it([1, 2, 3, -4]), "items2": [5, 6], "empty": it([]), "pairs": it([(1, 2), (3, 4)]),
         "objs": it([Obj(1, "x"), Obj(2, "y"), Obj(3, "x")]), "dups": it([1, 2, 1, 3, 2]),
         "tree": it([Node(1, [Node(2), Node(3, [Node(4)])]), Node(5)]), "plain": [3, 1, 2],
+        "lazy": Lazy(fn(lambda: 1), fn(lambda: 0)),
         "mixed": it([Part(1, None), Part(2, "x"), Part(3, None), Part(4, "X"), Part(5, "y")]),
         "words": it(["a", "B", "A", "b", "c"]), "nested": it([[1], [2, 3]]),
     }
